@@ -337,7 +337,7 @@ pub fn run(ctx: &Ctx) -> PropResult {
         let field = (idx % 5) as usize;
         let k = (idx / 5) as u32;
         let (min, max): (u32, u32) = [(0, 59), (0, 23), (1, 31), (1, 12), (0, 7)][field];
-        let mut make = |item: String| {
+        let make = |item: String| {
             let mut f = vec!["*".to_string(); 5];
             f[field] = item;
             f.join(" ")
